@@ -40,36 +40,45 @@ def main():
     pre = vell + [lat1.t >= -90, lat1.t <= 90, lon1.t >= -180, lon1.t <= 180, az.t >= 0, az.t <= 360, s.t >= 0, s.t <= 20000000]
     vd = E.cut_loops(gd.vincdir, gd, loop_hook('VDIR'), cut_for=True)
     paths = E.explore(lambda: vd(lat1, lon1, az, s, ell), pre)
-    kinds = sorted(p['kind'] for p in paths)
-    if kinds != ['loopback', 'ret', 'ret']:
-        raise S.EngineError('vincdir: path kinds %r' % kinds)
-    LP = E.LOOPS['vincdir#for1']
+    lbs = [p for p in paths if p['kind'] == 'loopback']
+    rets = [p for p in paths if p['kind'] == 'ret']
+    if not lbs or len(rets) < 2 or len(lbs) + len(rets) != len(paths):
+        raise S.EngineError('vincdir: path kinds %r' % sorted(p['kind'] for p in paths))
     a_, f_ = lift(ell.semimaj), 1 / lift(ell.inversef)
     b_ = a_ * (1 - f_)
     su = V.direct_setup(lat1.t * PI / 180, az.t * PI / 180, s.t, a_, b_, f_, MSym)
-    rd = LP['reads']
-    # setup quantities, observed in the loop's read-set
-    for nm, code, spec in (('sigma1', lift(rd['sigma1']), su['sigma1']), ('A', lift(rd['a']), su['A']), ('B', lift(rd['b']), su['B']),
-                           ('sigma0', lift(LP['entry']['sigma']), su['sigma0'])):
-        P.oblige('vincdir.' + nm, 'geodesy.vincdir', 'setup', E.prove_eq(code, spec, pre), code=code, spec=spec, hyps=pre,
-                 note='Vincenty 1975 with the a, b, f of the ellipsoid argument')
-    sh = lift(LP['head']['sigma'])
-    st, tsm = V.direct_step(su, sh, s.t, b_, MSym)
-    P.oblige('vincdir.sigma_step', 'geodesy.vincdir', 'loop body', E.prove_eq(lift(LP['post']['sigma']), st, pre), code=lift(LP['post']['sigma']), spec=st, hyps=pre,
-             note='body is sigma <- s/(bA) + delta_sigma(sigma) with Vincenty\'s delta_sigma')
-    P.oblige('vincdir.two_sigma_m', 'geodesy.vincdir', 'loop body', E.prove_eq(lift(LP['post']['two_sigma_m']), tsm, pre), code=lift(LP['post']['two_sigma_m']), spec=tsm, hyps=pre)
+    # one loop-body path per way of reaching the loop (exactly one on the unchanged tree); every path carries its own loop record
+    for i, pl in enumerate(lbs):
+        LP = pl['loops']['vincdir#for1']
+        sfx = '' if len(lbs) == 1 else ' #%d' % (i + 1)
+        hy = pre + E.small(pl['pc'])
+        rd = LP['reads']
+        # setup quantities, observed in the loop's read-set
+        for nm, code, spec in (('sigma1', lift(rd['sigma1']), su['sigma1']), ('A', lift(rd['a']), su['A']), ('B', lift(rd['b']), su['B']),
+                               ('sigma0', lift(LP['entry']['sigma']), su['sigma0'])):
+            P.oblige('vincdir.' + nm, 'geodesy.vincdir', 'setup' + sfx, E.prove_eq(code, spec, hy), code=code, spec=spec, hyps=hy,
+                     note='Vincenty 1975 with the a, b, f of the ellipsoid argument')
+        sh = lift(LP['head']['sigma'])
+        st, tsm = V.direct_step(su, sh, s.t, b_, MSym)
+        P.oblige('vincdir.sigma_step', 'geodesy.vincdir', 'loop body' + sfx, E.prove_eq(lift(LP['post']['sigma']), st, hy), code=lift(LP['post']['sigma']), spec=st, hyps=hy,
+                 note='body is sigma <- s/(bA) + delta_sigma(sigma) with Vincenty\'s delta_sigma')
+        P.oblige('vincdir.two_sigma_m', 'geodesy.vincdir', 'loop body' + sfx, E.prove_eq(lift(LP['post']['two_sigma_m']), tsm, hy), code=lift(LP['post']['two_sigma_m']), spec=tsm, hyps=hy)
     r11, r9 = S.round_uf(11), S.round_uf(9)
-    for p in paths:
-        if p['kind'] != 'ret':
-            continue
+    nret = {}
+    for p in rets:
+        LP = p['loops']['vincdir#for1']
+        sh = lift(LP['head']['sigma'])
+        st, tsm = V.direct_step(su, sh, s.t, b_, MSym)
         exhausted = any(z3.is_const(c) and str(c).startswith('exhausted!') for c in p['pc'])
         tag = 'exit:cap reached' if exhausted else 'exit:converged'
+        nret[tag] = nret.get(tag, 0) + 1
+        if len(rets) > 2:
+            tag += ' #%d' % nret[tag]
         if exhausted:
             sig, two = sh, lift(LP['head']['two_sigma_m'])
         else:
             sig, two = st, tsm
             # exit criterion
-            chg = lift(LP['post']['sigma']) - sh if False else None
             tol = z3.Q(1, 10 ** 12)
             A_ = E.Abstractor()
             H = A_.assume(pre + p['pc'])
@@ -91,7 +100,7 @@ def main():
         pa = E.explore(lambda: vd(g(lat1), g(lon1), g(az), s, ell), pre)
         pb = E.explore(lambda: vd(g(lat1).dec(), g(lon1).dec(), g(az).dec(), s, ell), pre)
         ra, rb = [p for p in pa if p['kind'] == 'ret'], [p for p in pb if p['kind'] == 'ret']
-        same = len(ra) == len(rb) == 2 and all(z3.is_true(z3.simplify(z3.And(*[lift(u) == lift(v) for u, v in zip(x['val'], y['val'])]))) for x, y in zip(ra, rb))
+        same = len(ra) == len(rb) >= 2 and all(z3.is_true(z3.simplify(z3.And(*[lift(u) == lift(v) for u, v in zip(x['val'], y['val'])]))) for x, y in zip(ra, rb))
         P.oblige('vincdir.angle_objects', 'geodesy.vincdir', cls, dict(result='discharged' if same else 'sat', backend='syntactic term identity', ms=0), strict=True)
     P.assumptions += ['assumed lemma (Vincenty 1975): the truncated A, B, C series differ from the exact geodesic by < 0.1 mm for Earth-like flattening; convergence of the sigma iteration; both checked by Layer B against geodesic integrals evaluated by quadrature']
     B.report(P, 'bounded.C04')
